@@ -23,6 +23,25 @@
    elements; the top-level value is never missing and carries no presence byte.  TInterval is read as the struct
    {start, end, includesStart, includesEnd} (4 nullable fields), tuples and structs as EBaseStruct.
 
+   Second build (line numbers of the tree the transcription was read from):
+     TLocus     EType.scala:378-385   EBaseStruct{contig: EBinary(false), position: EInt32(false)}, required = false:
+                                      two NULLABLE fields = one missing byte (EBaseStruct.scala:46-49 nMissingBytes =
+                                      packBitsToBytes(#non-required fields)), then contig as EBinary (EBinary.scala:23-24 /
+                                      54-57: int32 byte length + bytes), then position as EInt32.  The decoder writes into
+                                      PCanonicalLocus.representation {contig, position} (EBaseStruct.scala:160,
+                                      PCanonicalLocus.scala:15-19), matching fields BY NAME (EBaseStruct.scala:176) - the bytes
+                                      are positional.  Front end: types.py tlocus.struct_repr = tstruct(contig=tstr, pos=tint32)
+                                      (types.py:1844, _convert_to_encoding 1907-1908) - the field is called `pos` there, which
+                                      the bytes do not show.  The front end never writes a missing contig / position; the
+                                      engine's target fields are required, so Dec rejects a set missing bit.
+     TInterval  EType.scala:387-396   EBaseStruct{start, end, includesStart: EBoolean(false), includesEnd: EBoolean(false)},
+                                      point type through fromPythonTypeEncoding; decoded into PCanonicalInterval.representation
+                                      (EBaseStruct.scala:161, PCanonicalInterval.scala:33-39).  Front end: types.py:1942
+                                      _struct_repr = tstruct(start, end, includes_start, includes_end), 2017-2024.
+     TNDArray   EType.scala:411-412   ENDArrayColumnMajor(required element, nDims): ENDArrayColumnMajor.scala:21 nDims x
+                                      writeLong(extent); :41-58 the decoder reads the extents, makeColumnMajorStrides, then
+                                      prod(extents) elements consecutively = first index fastest.  Front end: types.py:801-810.
+
    This module defines, over the universe of TypedValues.tla,
        Enc(t, v)        the byte sequence the engine expects for value v of type t   (the layout, as an encoder)
        Dec(t, b, p)     the engine's decoders as a byte-grammar reader               (the layout, as a decoder)
@@ -92,6 +111,10 @@ F64Bytes(x) ==
     [] x = "f64max"  -> <<255, 255, 255, 255, 255, 255, 239, 127>>
     [] x = "f64tiny" -> <<1, 0, 0, 0, 0, 0, 0, 0>>
     [] x = "p53p1f"  -> <<1, 0, 0, 0, 0, 0, 64, 67>>                        \* 4340 0000 0000 0001 = 2^53 + 2
+    [] x = "d3rd"    -> <<85, 85, 85, 85, 85, 85, 213, 63>>                 \* 3FD5 5555 5555 5555 = 1/3
+    [] x = "s3rd"    -> <<0, 0, 0, 96, 85, 85, 213, 63>>                    \* 3FD5 5555 6000 0000 = float32(1/3)
+    [] x = "f16m1"   -> <<0, 0, 0, 16, 0, 0, 112, 65>>                      \* 4170 0000 1000 0000 = 2^24 + 1
+    [] x = "f16m"    -> <<0, 0, 0, 0, 0, 0, 112, 65>>                       \* 4170 0000 0000 0000 = 2^24
 F32Bytes(x) ==
   CASE x = "nan"     -> <<0, 0, 192, 127>>                                  \* 7FC0 0000
     [] x = "pinf"    -> <<0, 0, 128, 127>>
@@ -104,6 +127,8 @@ F32Bytes(x) ==
     [] x \in {"d0.1", "s0.1"} -> <<205, 204, 204, 61>>                      \* 3DCC CCCD: 0.1 rounded to nearest
     [] x = "f32max"  -> <<255, 255, 127, 127>>
     [] x = "f32tiny" -> <<1, 0, 0, 0>>
+    [] x \in {"d3rd", "s3rd"}   -> <<171, 170, 170, 62>>                    \* 3EAA AAAB: 1/3 rounded to nearest (up)
+    [] x \in {"f16m1", "f16m"}  -> <<0, 0, 128, 75>>                        \* 4B80 0000: 2^24 + 1 rounds to even = 2^24
 \* UTF-8 of the symbolic strings (the length prefix counts BYTES)
 Utf8(x) ==
   CASE x = "empty"    -> <<>>
@@ -112,6 +137,12 @@ Utf8(x) ==
     [] x = "calllike" -> <<48, 124, 49>>                                     \* 0|1
     [] x = "nonascii" -> <<195, 169, 228, 184, 173, 240, 159, 152, 128>>     \* U+00E9 U+4E2D U+1F600
     [] x = "escapes"  -> <<34, 92, 47, 10, 9, 0, 127, 226, 128, 168>>        \* " \ / LF TAB NUL DEL U+2028
+    [] x = "astralnul" -> <<240, 144, 128, 128, 0, 244, 143, 191, 191>>      \* U+10000 NUL U+10FFFF
+\* UTF-8 of the contig names of the genome "vrg"
+ContigUtf8(cn) ==
+  CASE cn = "c1" -> <<49>>                                                   \* 1
+    [] cn = "cx" -> <<99, 34, 92, 32, 195, 169, 240, 159, 152, 128>>         \* c " \ SPACE U+00E9 U+1F600  (6 code points, 10 bytes)
+    [] cn = "cm" -> <<77, 84>>                                               \* MT
 
 LeafBytes(k, x) ==
   CASE k = "int32"   -> I32Bytes(IntVal(x))
@@ -145,6 +176,9 @@ Enc(t, v) ==
   IF IsNA(v) THEN <<>>                                                      \* a missing value has no bytes, only its bit
   ELSE
   CASE t.k \in Prims -> LeafBytes(t.k, v.x)
+    [] t.k = "locus" ->                                                     \* EBaseStruct{contig: EBinary, position: EInt32}, both nullable
+         MissingBytes(<<FALSE, FALSE>>)
+         \o I32Bytes(Len(ContigUtf8(v.contig))) \o ContigUtf8(v.contig) \o I32Bytes(v.pos)
     [] t.k \in {"array", "set"} ->                                          \* EArray(nullable element)
          I32Bytes(Len(v.xs)) \o MissingBytes([i \in 1 .. Len(v.xs) |-> IsNA(v.xs[i])])
          \o Flat([i \in 1 .. Len(v.xs) |-> Enc(t.e, v.xs[i])])
@@ -201,6 +235,16 @@ HasBad(vs) == \E i \in 1 .. Len(vs) : vs[i] = Bad
 
 Dec(t, b, p) ==
   CASE t.k \in Prims -> DecLeaf(t.k, b, p)
+    [] t.k = "locus" ->
+         \* one missing byte; PCanonicalLocus.representation has REQUIRED contig and position: a set bit is not a locus
+         IF p + 4 > Len(b) THEN [v |-> Bad, p |-> p]
+         ELSE IF MBit(b, p, 0) \/ MBit(b, p, 1) THEN [v |-> Bad, p |-> p]
+         ELSE LET n == I32At(b, p + 1) IN
+              IF n < 0 \/ p + 4 + n + 4 > Len(b) THEN [v |-> Bad, p |-> p]
+              ELSE LET S   == {cn \in Contigs : ContigUtf8(cn) = Slice(b, p + 5, n)}
+                       pos == I32At(b, p + 5 + n)
+                   IN  IF S = {} THEN [v |-> Bad, p |-> p]
+                       ELSE [v |-> [c |-> "loc", rg |-> t.rg, contig |-> CHOOSE cn \in S : TRUE, pos |-> pos], p |-> p + 9 + n]
     [] t.k \in {"array", "set"} ->
          IF p + 3 > Len(b) THEN [v |-> Bad, p |-> p]
          ELSE LET n  == I32At(b, p)
@@ -248,8 +292,8 @@ DecAll(t, b) == LET r == Dec(t, b, 1) IN IF r.v # Bad /\ r.p = Len(b) + 1 THEN r
 (* depth-2 selection; quick: a selection with every kind, all n-d array types, the 9-field types): every   *)
 (* byte is a byte, decoding the encoding gives back the value, nothing is left over.                        *)
 EncTypes == IF Level = 0
-            THEN D0 \cup T1Tiny \cup NdTypes \cup Special \cup Over2({TArr(P("float64")), TDict(P("str"), P("float64"))})
-            ELSE D0 \cup T1 \cup Over2(T1Tiny)
+            THEN D0 \cup T1Tiny \cup NdTypes \cup Special \cup Over2({TArr(P("float64")), TDict(P("str"), P("float64"))}) \cup Named2
+            ELSE D0 \cup T1 \cup Over2(T1Tiny) \cup Named2 \cup Deep3
 EncodingSelf(dummy) ==
   /\ \A t \in EncTypes : \A v \in Vals(t, 2) :
         LET b == Enc(t, v) IN
@@ -266,12 +310,16 @@ EncodingSelf(dummy) ==
 (*                             order, which is the order the front end writes them in)                   *)
 (*                   err       "" or "<stage>: <exception>"                                             *)
 (*                   bytes     what _convert_to_encoding wrote                                          *)
-(*                   w         _convert_from_encoding of those bytes, as a report tree                  *)
+(*                   haslit    hl.literal(v, t) is an EncodedLiteral (everything but top-level int / float /  *)
+(*                             bool / str);  lit: the base64 payload of its RENDERED IR text, decoded         *)
+(*                   w         _convert_from_encoding of the payload (of `bytes` when there is no literal),    *)
+(*                             as a report tree                                                              *)
 WhyEnc(x) ==
-  IF ~(IsType(x.t) /\ IF IsType(x.t) THEN Depth(x.t) <= 2 /\ WellTyped(x.t, x.v) /\ x.v # NA ELSE FALSE) THEN "not-in-universe"
+  IF ~(IsType(x.t) /\ IF IsType(x.t) THEN Depth(x.t) <= MaxDepth /\ WellTyped(x.t, x.v) /\ x.v # NA ELSE FALSE) THEN "not-in-universe"
   ELSE IF ~Match(x.t, x.v, x.vin) THEN "harness"             \* the harness built another value than TLC asked for
   ELSE IF x.err # "" THEN "raised"
   ELSE IF x.bytes # Enc(x.t, x.vin) THEN "layout"
+  ELSE IF x.haslit /\ x.lit # x.bytes THEN "literal"        \* payload of the rendered hl.literal(v, t) # _to_encoding(v)
   ELSE IF ~Ok(x.t, x.v, x.w) THEN "differs"
   ELSE ""
 EncVerdict(u) ==
@@ -282,6 +330,7 @@ EncVerdict(u) ==
              [n      |-> Len(cases),
               ok     |-> Len(cases) - Cardinality(bad),
               nested |-> Cardinality({i \in 1 .. Len(cases) : IF IsType(cases[i].t) THEN Depth(cases[i].t) = 2 ELSE FALSE}),
+              deep   |-> Cardinality({i \in 1 .. Len(cases) : IF IsType(cases[i].t) THEN Depth(cases[i].t) = 3 ELSE FALSE}),
               bad    |-> SetToSeq({[i |-> i, why |-> why[i],
                                     want |-> IF why[i] = "layout" THEN Enc(cases[i].t, cases[i].vin) ELSE <<>>] : i \in bad})])
 =============================================================================
